@@ -426,5 +426,52 @@ def r12_10(ctx):
     ctx.ok("Kconfig._load_old_vals/auto.conf is cut on the newline only", ctx.repo.func(f"{CORE}:Kconfig._load_old_vals").loc(), nontrivial=False)
 
 
+def r12_11(ctx):
+    """R12.11 a torn auto.conf does not stop the rerun: the two places that read an existing auto.conf back (_load_old_vals and
+    _contents_eq) either decode leniently (`errors=`) or read inside a handler that covers UnicodeError - a sync may die in the
+    middle of a multi-byte character, and strict decoding would raise UnicodeDecodeError (not an EnvironmentError) on every
+    rerun (fixed defect 5.47)."""
+    repo = ctx.repo
+    lo = repo.func(f"{CORE}:Kconfig._load_old_vals")
+    ce = repo.func(f"{CORE}:Kconfig._contents_eq")
+    ctx.analysed(lo.qual, ce.qual)
+    from ..taint import TaintAnalysis, _FuncTaint
+    WIDE = ("UnicodeError", "UnicodeDecodeError", "ValueError", "Exception", "BaseException")
+    for f, label in ((lo, "reading the old values"), (ce, "comparing with the existing file")):
+        construct = f"{f.short}/{label} survives an undecodable auto.conf"
+        opens = [n for n in ast.walk(f.node) if isinstance(n, ast.Call) and ast.unparse(n.func) == "open" and n.args
+                 and not any(isinstance(a, ast.Constant) and isinstance(a.value, str) and a.value[:1] in ("w", "a", "x") for a in n.args[1:])]
+        if not opens:
+            raise AnchorError(f"{f.short}: no read-open")
+        ok = True
+        for o in opens:
+            lenient = any(k.arg == "errors" and isinstance(k.value, ast.Constant) and k.value.value not in (None, "strict") for k in o.keywords)
+            binary = any(isinstance(a, ast.Constant) and isinstance(a.value, str) and "b" in a.value for a in o.args[1:])
+            if lenient or binary:
+                continue
+            # strict decoding: every read of the handle must sit in a try whose handlers cover UnicodeError
+            reads = [n for n in ast.walk(f.node) if isinstance(n, (ast.For, ast.Call)) and (
+                (isinstance(n, ast.Call) and isinstance(n.func, ast.Attribute) and n.func.attr in ("read", "readline", "readlines"))
+                or (isinstance(n, ast.For) and isinstance(n.iter, ast.Name)))]
+            ft = _FuncTaint(TaintAnalysis(repo, CORE), f, {})
+
+            def covered(node):
+                p = repo.parent(node)
+                child = node
+                while p is not None and p is not f.node:
+                    if isinstance(p, ast.Try) and child in p.body:
+                        for h in p.handlers:
+                            names = [ast.unparse(x) for x in (h.type.elts if isinstance(h.type, ast.Tuple) else [h.type])] if h.type is not None else ["BaseException"]
+                            if any(nm.split(".")[-1] in WIDE for nm in names):
+                                return True
+                    child, p = p, repo.parent(p)
+                return False
+            if not reads or not all(covered(r) for r in reads):
+                ok = False
+        (ctx.ok(construct, f.loc(opens[0])) if ok else
+         ctx.bad(construct, "the file is decoded strictly and a UnicodeDecodeError is not handled: an auto.conf cut inside a multi-byte character by an interrupted "
+                 "sync makes every later sync raise - the rerun never completes and no trigger is delivered", f.loc(opens[0])))
+
+
 def rules():
-    return [("R12.10", r12_10, 1), ("R12.9", r12_9, 1), ("R12.8", r12_8, 1), ("R12.7", r12_7, 2), ("R12.1", r12_1, 6), ("R12.2", r12_2, 2), ("R12.3", r12_3, 1), ("R12.4", r12_4, 6), ("R12.5", r12_5, 4), ("R12.6", r12_6, 4)]
+    return [("R12.11", r12_11, 2), ("R12.10", r12_10, 1), ("R12.9", r12_9, 1), ("R12.8", r12_8, 1), ("R12.7", r12_7, 2), ("R12.1", r12_1, 6), ("R12.2", r12_2, 2), ("R12.3", r12_3, 1), ("R12.4", r12_4, 6), ("R12.5", r12_5, 4), ("R12.6", r12_6, 4)]
